@@ -1,44 +1,44 @@
 (* driver.ml -- runs the extracted hub model on encoded cases.
    stdin : one case per line, "<property number> <int> <int> ..."
    stdout: one line per case with the encoded observables. *)
-open Model
+(* no `open Model`: the extracted code may define its own `string`, `list` ... types *)
 
-let rec pos_of_int (n : int) : positive =
-  if n = 1 then XH
-  else if n land 1 = 0 then XO (pos_of_int (n lsr 1))
-  else XI (pos_of_int (n lsr 1))
+let rec pos_of_int (n : int) : Model.positive =
+  if n = 1 then Model.XH
+  else if n land 1 = 0 then Model.XO (pos_of_int (n lsr 1))
+  else Model.XI (pos_of_int (n lsr 1))
 
-let z_of_int (n : int) : z =
-  if n = 0 then Z0 else if n > 0 then Zpos (pos_of_int n) else Zneg (pos_of_int (-n))
+let z_of_int (n : int) : Model.z =
+  if n = 0 then Model.Z0 else if n > 0 then Model.Zpos (pos_of_int n) else Model.Zneg (pos_of_int (-n))
 
 let ten = z_of_int 10
 
 (* decimal literal of any size (usize::MAX does not fit an OCaml int) *)
-let z_of_string (s : string) : z =
+let z_of_string (s : string) : Model.z =
   let neg = String.length s > 0 && s.[0] = '-' in
   let start = if neg then 1 else 0 in
   if String.length s - start <= 17 then z_of_int (int_of_string s)
   else begin
-    let acc = ref Z0 in
+    let acc = ref Model.Z0 in
     for i = start to String.length s - 1 do
-      acc := Z.add (Z.mul !acc ten) (z_of_int (Char.code s.[i] - 48))
+      acc := Model.Z.add (Model.Z.mul !acc ten) (z_of_int (Char.code s.[i] - 48))
     done;
-    if neg then Z.opp !acc else !acc
+    if neg then Model.Z.opp !acc else !acc
   end
 
-let rec int_of_pos (p : positive) : int =
-  match p with XH -> 1 | XO q -> 2 * int_of_pos q | XI q -> 2 * int_of_pos q + 1
+let rec int_of_pos (p : Model.positive) : int =
+  match p with Model.XH -> 1 | Model.XO q -> 2 * int_of_pos q | Model.XI q -> 2 * int_of_pos q + 1
 
-let rec pos_bits (p : positive) : int = match p with XH -> 1 | XO q | XI q -> 1 + pos_bits q
+let rec pos_bits (p : Model.positive) : int = match p with Model.XH -> 1 | Model.XO q | Model.XI q -> 1 + pos_bits q
 
-let rec string_of_z (x : z) : string =
+let rec string_of_z (x : Model.z) : string =
   match x with
-  | Z0 -> "0"
-  | Zneg p -> "-" ^ string_of_z (Zpos p)
-  | Zpos p ->
+  | Model.Z0 -> "0"
+  | Model.Zneg p -> "-" ^ string_of_z (Model.Zpos p)
+  | Model.Zpos p ->
     if pos_bits p <= 61 then string_of_int (int_of_pos p)
     else begin
-      let (q, r) = Z.div_eucl x ten in
+      let (q, r) = Model.Z.div_eucl x ten in
       string_of_z q ^ string_of_z r
     end
 
@@ -52,7 +52,7 @@ let () =
        | [] -> Buffer.add_char buf '\n'
        | p :: rest ->
          let case = List.map z_of_string rest in
-         let obs = run_case (z_of_string p) case in
+         let obs = Model.run_case (z_of_string p) case in
          let first = ref true in
          List.iter
            (fun v ->
